@@ -67,8 +67,14 @@ def stmt(rng, ints, bools, profile="full", lhs=None):
     if profile == "bwd":
         # backward-analysis profile (C11): invertible and NON-invertible assignments: division and multiplication by
         # small constants of either sign, x := x + k with x on both sides, select, assumes with bounds at -1, 0, 1
-        k = rng.choice(["sdivk"] * 3 + ["mulk"] * 2 + ["addk"] * 2 + ["assign", "assume", "assume", "havoc", "select"])
+        k = rng.choice(["sdivk"] * 3 + ["mulk"] * 2 + ["addk"] * 2 + ["assign", "assume", "assume", "havoc", "select", "selectself"])
         kc = lambda: rng.choice([-4, -3, -2, 2, 3, 4])
+        if k == "selectself":
+            # x := ite(cond on x at -1/0/1, small constant or variable, ...): the condition reads the OLD value of the assigned variable
+            v = rng.choice(W)
+            c = {"e": {"k": rng.choice([-1, 0, 1]), "t": [[rng.choice([1, -1]), v]]}, "r": rng.choice(["le", "lt", "eq", "ne"])}
+            br = lambda: ({"k": rng.randint(-1, 1), "t": []} if rng.random() < 0.7 else {"k": rng.randint(-1, 1), "t": [[1, rng.choice(ints)]]})
+            return {"op": "select", "x": v, "c": c, "e1": br(), "e2": br()}
         if k == "sdivk":
             return {"op": "arith", "f": "sdiv", "x": rng.choice(W), "y": rng.choice(ints), "zk": 1, "z": kc()}
         if k == "mulk":
